@@ -20,9 +20,9 @@ ASSUMPTIONS = ['free variable names are CNAMEs that are neither keywords nor con
                'multi-line output is re-joined with single spaces as parser.parse_term(list) does; highlighted output is '
                'flattened by concatenating the text fields']
 REQUIRED = {'quick': {'roundtrips_ok': 20000, 'types_roundtrips': 1500, 'thm_roundtrips': 800, 'item_roundtrips': 600,
-                      'memo_differentials': 2500, 'library_statements': 400},
+                      'memo_differentials': 2500, 'library_statements': 400, 'history_reprints': 1500},
             'thorough': {'roundtrips_ok': 400000, 'types_roundtrips': 30000, 'thm_roundtrips': 15000, 'item_roundtrips': 12000,
-                         'memo_differentials': 50000, 'library_statements': 3000}}
+                         'memo_differentials': 50000, 'library_statements': 3000, 'history_reprints': 30000}}
 SHARD_TIMEOUT = {'quick': 1200, 'thorough': 7200}
 
 B, NAT, INT, REAL = S.BOOL, S.NAT, S.INT, S.REAL
@@ -401,6 +401,30 @@ def gen_thm_and_items(ctx, rng, g):
             return
     th = Thm(S.to_repo_term(props[-1]), *[S.to_repo_term(p) for p in props[:-1]])
     set_ctx(props)
+    # W-HIST: what was printed before must not matter - component, composite (sequent / argument list), component again
+    for u in (False, True):
+        for hl in (True, False):
+            try:
+                with global_setting(unicode=u, highlight=hl, line_length=None):
+                    comps = [S.to_repo_term(p) for p in props]
+                    before = [flatten(printer.print_term(c), hl, None) for c in comps]
+                    flatten(printer.print_thm(th), hl, None)
+                    it_ = ProofItem(0, 'assume', args=comps[0], th=th)
+                    printer.export_proof_item(it_)
+                    if len(comps) >= 2:
+                        printer.print_str_args('vf', tuple(comps), None)
+                    after = [flatten(printer.print_term(c), hl, None) for c in comps]
+                with global_setting(unicode=u, highlight=False, line_length=None):
+                    plain = [printer.print_term(c) for c in comps]
+            except Exception as e:
+                ctx.count('history_print_raised:' + type(e).__name__)
+                continue
+            ctx.count('history_reprints', len(comps))
+            for k_, (b0, a0, p0) in enumerate(zip(before, after, plain)):
+                if not (b0 == a0 == p0):
+                    ctx.violation('history:text-of-a-term-depends-on-what-was-printed-before', 'term %s prints as %r, then after printing a sequent / argument list containing it as %r (plain text %r)' % (
+                        S.tm_str(props[k_]), b0, a0, p0), {'kind': 'thm', 'props': [S.jsonable(p) for p in props], 'unicode': u, 'highlight': hl})
+                    break
     for u in (False, True):
         try:
             with global_setting(unicode=u, highlight=False):
